@@ -42,6 +42,7 @@ relab = z3.Function("relab", Key, z3.ArraySort(Label, Int), Key)   # tuple(mappi
 srt = z3.Function("srt", Key, Key)                                  # tuple(sorted(key)) for integer labels
 nonnegvals = z3.Function("nonnegvals", z3.ArraySort(Label, Bool), z3.ArraySort(Label, Int), Bool)   # mapping values are ints >= 0
 linked = z3.Function("linked", z3.ArraySort(Label, Bool), z3.ArraySort(Label, Int), Bool)   # x == a o mapping on dom
+rlinked = z3.Function("rlinked", z3.ArraySort(Label, Bool), z3.ArraySort(Label, Int), Bool)  # a == x o mapping on dom
 LSet_ = z3.ArraySort(Label, Bool)
 fout = z3.Function("fout", Key, LSet_, Key)       # subsequence of the members of a key that are NOT in the set
 fin = z3.Function("fin", Key, LSet_, Key)         # subsequence of the members that are in the set
@@ -67,6 +68,7 @@ LEMMAS = {
     "L12-count": "if every stored coefficient of d equals c then the boolean value of d is c times the number of its monomials that evaluate to 1, a natural number <= the number of terms",
     "L13-origin": "at the all-zero boolean assignment (all spins +1) a monomial is 1 if its key is empty and 0 otherwise (spin: always 1), so the boolean value of a model there is its constant term",
     "intp-closure": "the integers contain 0, 1, -1, 2 and every cast of an integer, are closed under + - * unary minus and if-then-else, and an integer real has an integer witness: the only facts about the abstract integrality predicate intp",
+    "L17-removed-pair": "for a boolean assignment, the monomial of the sub-key made of all occurrences of two labels a, b of k is (x a if a occurs) * (x b if b occurs and b != a); hence mono(k) = mono(k without a, b) * x a * x b when both occur (the degree-reduction step replaces x a * x b by the ancilla's value)",
     "L14-keyanc": "keyanc(k) = max over the labels l of k of (ancidx(l)+1 if l is an ancilla name else 0): 0 for the empty key, the label's value for a unit key, max for a concatenation / head-and-tail, equal for the sorted duplicate-free key, not larger for the odd-multiplicity key; '__a%d' % n is an ancilla name with number n",
     "set-facts": "memset of empty/unit/concat; members(sorted(set k)) = members(k); members(ssq k) subset members(k); |S + {i}| = |S| + [i not in S]",
     "sq-shape": "sq(k) is duplicate-free, sorted, idempotent, no longer than k, members(sq k) subset members(k), identity on length <= 1",
@@ -472,6 +474,8 @@ class Facts:
         n = z3.Length(k)
         self.add(z3.Length(r) == n)
         self.add(z3.Implies(z3.And(ok, lk), z3.And(amono(r) == bmono(k), asmono(r) == smono(k))))
+        # the same lemma (L9) with the roles of the two ghost assignments exchanged
+        self.add(z3.Implies(z3.And(ok, rlinked(mdom, mval)), z3.And(bmono(r) == amono(k), smono(r) == asmono(k))))
         self.add(z3.Implies(z3.And(ok, nonnegvals(mdom, mval)), matvalid(r)))
         self.add(z3.Implies(z3.And(n >= 1), r[0] == z3.Select(mval, k[0])))
         self.add(z3.Implies(z3.And(n >= 2), r[1] == z3.Select(mval, k[1])))
@@ -503,6 +507,16 @@ class Facts:
         self.add(z3.Implies(matvalid(k), z3.And(matvalid(fo), matvalid(fi))))
         self._sqs.append((False, fo, fo))      # so that later set facts know these keys
         self.used.add("L10-split")
+        # splitting distributes over concatenation; a one-element key goes to one side
+        n = z3.Length(k)
+        self.add(z3.Implies(n == 0, z3.And(fo == k, fi == k)))
+        self.add(z3.Implies(n == 1, z3.If(z3.Select(S, k[0]), z3.And(fi == k, z3.Length(fo) == 0),
+                                          z3.And(fo == k, z3.Length(fi) == 0))))
+        for (a, b, kk) in list(self._concats):
+            if kk.eq(k):
+                fa, ia = self.split(a, S)
+                fb, ib = self.split(b, S)
+                self.add(z3.And(fo == self.concat(fa, fb), fi == self.concat(ia, ib)))
         return fo, fi
 
     def value_product(self, kpart, spin, Sinside, S, vdom, vval):
